@@ -40,7 +40,7 @@ def run(tier, seed):
          "numeric facets on integer-based simple types are carried as text (value: String) and checked on the parsed number",
          "the envelope level (header/body delegation) is covered by the emitted-check theorems and the helper scenarios; the round trips check the types below the envelope"],
         "instances from Spec.Inst with a 60% chance of a violating value at each restricted position: check_restrictions(None) on the compiled emitted value must fail exactly when the specification says some value violates its effective facets; plus the helper's violating-request scenarios on a loopback listener",
-        extra_after=transmission)
+        extra_after=transmission, extra_props=[("ZeepVerif.Props.C07Tree", "ZeepVerif/Audit/C07Tree.lean")])
 
 
 def replay(payload):
